@@ -768,6 +768,25 @@ func (w *weaver) weave(c *Contract) {
 				return true
 			})
 			if off < 0 {
+				// no statement starts with the anchor text: take the first statement whose own text (for a
+				// compound statement: its header, without the body) contains it
+				ast.Inspect(fd.Body, func(m ast.Node) bool {
+					if off >= 0 {
+						return false
+					}
+					if _, ok := m.(*ast.FuncLit); ok {
+						return false
+					}
+					if st, ok := m.(ast.Stmt); ok {
+						if _, isBlock := st.(*ast.BlockStmt); !isBlock && strings.Contains(headerText(sf, st), cl.Before) {
+							off = sf.fset.Position(st.Pos()).Offset
+							return false
+						}
+					}
+					return true
+				})
+			}
+			if off < 0 {
 				w.fail("%s: anchor %q not found in %s", cl.Line, cl.Before, c.FuncName)
 				continue
 			}
@@ -873,4 +892,35 @@ func (w *weaver) overlay() map[string][]byte {
 		out[filepath.Join(dir, "zz_verif_gen.go")] = b.Bytes()
 	}
 	return out
+}
+
+// headerText: the source text of a statement without the bodies of compound statements.
+func headerText(sf *srcFile, st ast.Stmt) string {
+	var body *ast.BlockStmt
+	switch x := st.(type) {
+	case *ast.IfStmt:
+		body = x.Body
+	case *ast.ForStmt:
+		body = x.Body
+	case *ast.RangeStmt:
+		body = x.Body
+	case *ast.SwitchStmt:
+		body = x.Body
+	case *ast.TypeSwitchStmt:
+		body = x.Body
+	case *ast.SelectStmt:
+		body = x.Body
+	case *ast.LabeledStmt:
+		return ""
+	case *ast.CaseClause:
+		return ""
+	}
+	t := exprText(sf, st)
+	if body != nil {
+		n := sf.fset.Position(body.Pos()).Offset - sf.fset.Position(st.Pos()).Offset
+		if n >= 0 && n <= len(t) {
+			return t[:n]
+		}
+	}
+	return t
 }
